@@ -7,6 +7,7 @@
 //@check roundtrip_any_section_alignment serves=C01,C02,C10,C16 fn=PointCloudWriter::{new,write_buffer_to_disk,finalize} note="BOUNDED: a blob of every 4-aligned payload length 0..2100 in front of the point cloud (moves section header, packet header, stream-size table and stream data across page boundaries), 40 points, raw read-back and CRC validation compared"
 //@check wide_integers_and_all_bounds serves=C14,C12,C01,C10 fn=PointCloudWriter::add_point,BitPack::unpack_ints,BitPack::unpack_scaled_ints,integer_bits,serialize_integer note="BOUNDED: spherical coordinates (f64) + row / column / return index records with ranges 0..=i64::MAX, i64::MIN..=i64::MAX, -10..=i64::MAX + a ScaledInteger intensity over -2^62..=2^62; 9 points with values at both ends of every range, 2^53+1 and neighbours; spherical and index bounds exact over the points; raw read-back exact"
 //@check point_counts_around_packet_capacity serves=C01,C02 fn=PointCloudWriter::{add_point,write_buffer_to_disk,finalize,get_max_packet_points} note="BOUNDED: prototype 3 x f32 + 11-bit integer (packets hold ~4861 points) with every point count 4850..=4870 and 9715..=9730, and 3 x 19-bit scaled integers with 9120..=9130: counts that are exact multiples of the packet capacity, one less, one more (last partial flush with an empty point buffer); raw read-back exact"
+//@check degenerate_prototypes_are_rejected_or_work serves=C10,C14,C09 fn=PointCloudWriter::{new,validate_prototype,add_point,finalize},get_max_packet_points note="BOUNDED: prototypes of X,Y,Z plus 10 / 5000 / 5300 / 6000 / 21674 / 21700 / 40000 double extension records (around the two limits: one point per packet, more bits than a packet holds, more records than the packet header table holds) and 9 prototypes with a duplicated record name (same type, other type, flag attributes): add_pointcloud / add_point / finalize return within 120 s (watchdog) without a panic; an accepted prototype round-trips its points; when add_point is rejected the stored bounds stay those of the accepted points"
 //@module
     use crate::{E57Reader, E57Writer, RecordDataType, RecordName, RecordValue};
     use std::io::Cursor;
@@ -226,5 +227,110 @@
                 }
                 assert_eq!(got, n, "{what}: number of points read back");
             }
+        }
+    }
+
+    #[test]
+    fn degenerate_prototypes_are_rejected_or_work() {
+        // the calls run in a worker thread; this thread is the watchdog (a call that never returns is reported, not waited for)
+        let (tx, rx) = std::sync::mpsc::channel::<()>();
+        let worker = std::thread::spawn(move || { degenerate_prototypes_body(); let _ = tx.send(()); });
+        match rx.recv_timeout(std::time::Duration::from_secs(120)) {
+            Ok(()) => { worker.join().unwrap(); }
+            Err(std::sync::mpsc::RecvTimeoutError::Disconnected) => { if let Err(e) = worker.join() { std::panic::resume_unwind(e); } }
+            Err(std::sync::mpsc::RecvTimeoutError::Timeout) => panic!("degenerate prototypes: a writer call (add_pointcloud / add_point / finalize) did not return within 120 s"),
+        }
+    }
+    fn degenerate_prototypes_body() {
+        use crate::Extension;
+        // (1) very long prototypes
+        for n in [10usize, 5000, 5300, 6000, 21674, 21700, 40000] {
+            let what = format!("prototype with {n} double extension records");
+            let mut p = vec![Record::CARTESIAN_X_F64, Record::CARTESIAN_Y_F64, Record::CARTESIAN_Z_F64];
+            for i in 0..n {
+                p.push(Record { name: RecordName::Unknown { namespace: "ext".to_string(), name: format!("a{i}") }, data_type: RecordDataType::F64 });
+            }
+            let mut file = Cursor::new(Vec::new());
+            let accepted;
+            {
+                let mut w = E57Writer::new(&mut file, "guid-file").expect(&what);
+                w.register_extension(Extension::new("ext", "http://example.com/ext")).expect(&what);
+                match w.add_pointcloud("guid-pc", p.clone()) {
+                    Err(_) => { accepted = false; }
+                    Ok(mut pcw) => {
+                        accepted = true;
+                        for k in 0..3 {
+                            let vals: Vec<RecordValue> = (0..p.len()).map(|i| RecordValue::Double((i * 3 + k) as f64)).collect();
+                            pcw.add_point(vals).expect(&what);
+                        }
+                        pcw.finalize().expect(&what);
+                    }
+                }
+                w.finalize().expect(&what);
+            }
+            if accepted {
+                let mut r = E57Reader::new(Cursor::new(file.into_inner())).expect(&what);
+                let pc = r.pointclouds()[0].clone();
+                assert_eq!(pc.records, 3, "{what}");
+                let pts: Vec<_> = r.pointcloud_raw(&pc).expect(&what).map(|x| x.expect(&what)).collect();
+                assert_eq!(pts.len(), 3, "{what}");
+                for (k, pt) in pts.iter().enumerate() {
+                    for (i, v) in pt.iter().enumerate() { assert!(*v == RecordValue::Double((i * 3 + k) as f64), "{what}: point {k} value {i}"); }
+                }
+            } else {
+                // a point of up to 5000 doubles fits into a data packet: such a prototype follows every documented rule
+                assert!(n > 5000, "{what}: rejected although a point fits into a data packet");
+            }
+        }
+        // (2) a record name used twice
+        let int = |lo: i64, hi: i64| RecordDataType::Integer { min: lo, max: hi };
+        let dups: Vec<(&str, Record, Record)> = vec![
+            ("row index twice, second scaled", Record { name: RecordName::RowIndex, data_type: int(0, 10) }, Record { name: RecordName::RowIndex, data_type: RecordDataType::ScaledInteger { min: 0, max: 10, scale: 1.0, offset: 0.0 } }),
+            ("row index twice, second double", Record { name: RecordName::RowIndex, data_type: int(0, 10) }, Record { name: RecordName::RowIndex, data_type: RecordDataType::F64 }),
+            ("column index twice, same type", Record { name: RecordName::ColumnIndex, data_type: int(0, 10) }, Record { name: RecordName::ColumnIndex, data_type: int(0, 10) }),
+            ("x twice", Record::CARTESIAN_X_F64, Record::CARTESIAN_X_F64),
+            ("x twice, second scaled", Record::CARTESIAN_X_F64, Record { name: RecordName::CartesianX, data_type: RecordDataType::ScaledInteger { min: 0, max: 10, scale: 0.5, offset: 0.0 } }),
+            ("invalid state twice, second of the wrong range", Record { name: RecordName::CartesianInvalidState, data_type: int(0, 2) }, Record { name: RecordName::CartesianInvalidState, data_type: int(0, 7) }),
+            ("intensity twice", Record { name: RecordName::Intensity, data_type: int(0, 10) }, Record { name: RecordName::Intensity, data_type: RecordDataType::F32 }),
+            ("time stamp twice", Record { name: RecordName::TimeStamp, data_type: RecordDataType::F64 }, Record { name: RecordName::TimeStamp, data_type: RecordDataType::F64 }),
+            ("extension attribute twice", Record { name: RecordName::Unknown { namespace: "ext".to_string(), name: "a".to_string() }, data_type: int(0, 10) }, Record { name: RecordName::Unknown { namespace: "ext".to_string(), name: "a".to_string() }, data_type: RecordDataType::F64 }),
+        ];
+        for (what, a, b) in dups {
+            let mut p = vec![Record::CARTESIAN_X_F64, Record::CARTESIAN_Y_F64, Record::CARTESIAN_Z_F64];
+            if a.name != RecordName::CartesianX { p.push(a.clone()); }
+            p.push(b.clone());
+            let value_for = |r: &Record, k: i64| match r.data_type {
+                RecordDataType::Single { .. } => RecordValue::Single(k as f32),
+                RecordDataType::Double { .. } => RecordValue::Double(100.0 + k as f64),
+                RecordDataType::ScaledInteger { .. } => RecordValue::ScaledInteger(k),
+                RecordDataType::Integer { .. } => RecordValue::Integer(k),
+            };
+            let mut file = Cursor::new(Vec::new());
+            let mut accepted_points = 0u64;
+            {
+                let mut w = E57Writer::new(&mut file, "guid-file").expect(what);
+                w.register_extension(Extension::new("ext", "http://example.com/ext")).expect(what);
+                if let Ok(mut pcw) = w.add_pointcloud("guid-pc", p.clone()) {
+                    for k in 0..3i64 {
+                        let vals: Vec<RecordValue> = p.iter().map(|r| value_for(r, k)).collect();
+                        if pcw.add_point(vals).is_ok() { accepted_points += 1; }
+                    }
+                    pcw.finalize().expect(what);
+                    w.finalize().expect(what);
+                } else {
+                    continue;
+                }
+            }
+            // accepted: then it has to behave (C14: bounds are those of the accepted points; C01: they read back)
+            let mut r = E57Reader::new(Cursor::new(file.into_inner())).unwrap_or_else(|e| panic!("duplicate name ({what}) was accepted, but the file cannot be opened: {e}"));
+            let pc = r.pointclouds()[0].clone();
+            assert_eq!(pc.records, accepted_points, "duplicate name ({what})");
+            if accepted_points == 0 {
+                let b = pc.cartesian_bounds.clone().unwrap_or_default();
+                assert!(b.x_min.is_none() && b.x_max.is_none() && b.y_min.is_none() && b.z_max.is_none(),
+                    "duplicate name ({what}) was accepted, every point was rejected, and the rejected points widened the stored bounds: {b:?}");
+            }
+            let n = r.pointcloud_raw(&pc).unwrap().filter(|x| x.is_ok()).count() as u64;
+            assert_eq!(n, accepted_points, "duplicate name ({what}): points read back");
         }
     }
